@@ -22,7 +22,9 @@ META = {
             "generated program, same compile_error verdict), VM model vs real VM, end-to-end Spec vs compiler+VM (each compiled program executed twice to detect state left in it, "
             "then a third time on a SECOND variable map — assets, accounts, monetaries, numbers switched — and held to a fresh compilation of the same text on that "
             "map, then once more on the first map: a compiled program must not remember a run, program-remembers-a-run; monetary literals whose asset is a "
-            "variable, `[$cur 100]`, occur in send amounts, caps, overdrafts, metadata values and saves of 8-9 % of the programs); the "
+            "variable, `[$cur 100]`, occur in send amounts, caps, overdrafts, metadata values and saves of 8-9 % of the programs; the ill-typed stream "
+            "contains `send [A *]` from a source that is / ends with an account `allowing unbounded overdraft` or @world, 12-23 texts per quick run, which "
+            "compile (Lean) and compiler.Compile (Go) must both refuse: rejected_not_run at work); the "
             "engine's real compilation cache (command.NewCompiler, sizes 1 / 2 / 1024) is fed sequences of near-identical texts (blanks in strings and in the "
             "multi-word overdraft tokens, comments, CRLF, trailing newline, letter case, one digit) and must hand out, at every position, exactly what a fresh "
             "compiler.Compile of that text gives (cache-not-transparent).",
@@ -141,6 +143,7 @@ def run(ctx):
             rp.violation(sig, what, inp, a, lambda o, pb=pb: "panic" not in o and canon(proj(o)) != canon(pb), extra={"source_says": b})
     ctx.cov["replay_isolation"] = dict(rp.stats)
     ctx.cov["second_variable_map"] = rebind_stats(inputs, impl)
+    ctx.cov["focused_shapes"] = focus_stats(inputs, impl)
     for inp in inputs:
         a = impl.get(inp["id"], {})
         f = features(inp)
